@@ -256,7 +256,7 @@ META = {
                    "four observable series equal those of Weaver(*get_original()) and stay equal after one further "
                    "operation with identical arguments on both objects.",
     "bounds": {"quick": "series of 4 points (reshaped working series 6); 14 domain-operation variants + 13 reshaping "
-                        "variants + restore_original x 6 state kinds; all 21^2 two-operation programs from a fresh Weaver",
+                        "variants + restore_original x 6 state kinds; all 21^2 two-operation programs from a fresh Weaver; integer-typed series interpolated onto explicit real grids",
                "thorough": "series of 4..6 points; plus every 11th three-operation program"},
     "outside": ["the property's 40-point series and 10-step programs are covered through the inductive argument only",
                 "float rounding", "SciPy spline numerics, NumPy's generator (stubs)"],
